@@ -288,6 +288,21 @@ class Ctx:
         return 1 if new else 0
 
 
+def check_unsupported(ctx, facts):
+    """a construct the driver could not serialise (HIR kind `Other`) inside a function some rule looked at would be
+    invisible to that rule: report it instead of passing silently"""
+    from . import hirq
+    for fid in sorted(ctx.functions):
+        fn = facts.fns.get(fid)
+        if not fn or "hir" not in fn:
+            continue
+        for n in hirq.walk(fn["hir"]):
+            if n["k"] == "Other" and not hirq.in_log_macro(n):
+                ctx.violation("UNSUPPORTED", fid, "cannot-establish: construct not modelled by the analysis", hirq.loc(n),
+                              "this function contains a construct the fact extractor does not model (%s); the rules of this property cannot vouch for it" % n.get("dbg", "")[:60])
+                break
+
+
 def evidence_dir():
     return os.environ.get("PMH_EVIDENCE_DIR") or os.path.join(VERIF, "evidence")
 
